@@ -36,6 +36,10 @@ pub fn cleanup_root() {
 }
 
 pub fn uri(file: &str) -> String {
+    // (a name with a scheme of its own is a document that is not a file, e.g. `untitled:Untitled-1`)
+    if file.contains(':') {
+        return file.to_string();
+    }
     format!("file://{}/{}", root().display(), file)
 }
 
